@@ -747,7 +747,11 @@ class RewriteRuleSet:
                     )
 
                     used_domains: set[str] = {node.domain for node in original_nodes}
-                    parent_opset_imports = graph_or_function.opset_imports
+                    # Subgraphs (If/Loop bodies) do not carry the opset imports of the model
+                    parent_opset_imports = {
+                        **model.graph.opset_imports,
+                        **graph_or_function.opset_imports,
+                    }
                     used_opset_imports = {
                         k: v for k, v in parent_opset_imports.items() if k in used_domains
                     }
